@@ -1852,6 +1852,33 @@ ure_buffer_create(void)
   return b;
 }
 
+/*
+ * Free the ranges of character classes which a failed ure_compile() left
+ * in the symbol table of the buffer (after a successful compilation the
+ * symbol table belongs to the DFA and symtab_used is zero).
+ */
+static void
+#ifdef __STDC__
+_ure_free_symtab_ranges(_ure_buffer_t *buf)
+#else
+     _ure_free_symtab_ranges(buf)
+     _ure_buffer_t *buf;
+#endif
+{
+  unsigned long i;
+
+  for (i = 0; i < buf->symtab_used; i++) {
+    if ((buf->symtab[i].type == _URE_CCLASS ||
+	 buf->symtab[i].type == _URE_NCCLASS) &&
+	buf->symtab[i].sym.ccl.ranges_size > 0) {
+      free((char *) buf->symtab[i].sym.ccl.ranges);
+      buf->symtab[i].sym.ccl.ranges = 0;
+      buf->symtab[i].sym.ccl.ranges_size = 0;
+      buf->symtab[i].sym.ccl.ranges_used = 0;
+    }
+  }
+}
+
 void
 #ifdef __STDC__
 ure_buffer_free(ure_buffer_t buf)
@@ -1870,6 +1897,8 @@ ure_buffer_free(ure_buffer_t buf)
 
   if (buf->expr_size > 0)
     free((char *) buf->expr);
+
+  _ure_free_symtab_ranges(buf);
 
   for (i = 0; i < buf->symtab_size; i++) {
     if (buf->symtab[i].states.slist_size > 0)
@@ -1928,6 +1957,7 @@ ure_compile(ucs2_t *re, unsigned long relen, int casefold, ure_buffer_t buf)
 
   for (i = 0; i < buf->symtab_used; i++)
     buf->symtab[i].states.slist_used = 0;
+  _ure_free_symtab_ranges(buf);
   buf->symtab_used = 0;
 
   for (i = 0; i < buf->states.states_used; i++) {
